@@ -61,7 +61,8 @@ pub fn check_point<A: Ar>(cfg: &Cfg, pt: &Point, path: &PathBuf, out: &mut Crash
     if std::fs::write(path, &pt.bytes).is_err() {
         return None;
     }
-    let opts = cfg.options().with_capacity(cfg.cap).with_read(true).with_write(true);
+    // the capacity of the session that crashed (a truncate may have grown it beyond the configured one)
+    let opts = cfg.options().with_capacity(cfg.cap.max(pt.bytes.len() as u32)).with_read(true).with_write(true);
     let arena: A = match unsafe { opts.map_mut::<A, _>(path) } {
         Ok(a) => a,
         Err(e) => return Some(("reopen_failed", format!("file image does not open again: {}", e))),
@@ -141,6 +142,8 @@ fn run_generic<A: Ar>(spec: &CaseSpec, tag: u64, every: u64, mut source: impl Fn
     };
     let mut points: Vec<Point> = Vec::new();
     let mut i = 0usize;
+    // obligations of the last writable session (what a copy-on-write / read-only session must leave in the file)
+    let mut durable_ob: Vec<Range> = Vec::new();
     loop {
         if e.dead {
             break;
@@ -148,9 +151,15 @@ fn run_generic<A: Ar>(spec: &CaseSpec, tag: u64, every: u64, mut source: impl Fn
         let v = view(&e);
         let Some(op) = source(&v, &spec.cfg) else { break };
         out.ops.push(op.clone());
-        // boundary crash point (before the first access of the operation)
-        let ob = obligations(&e);
-        let mem = unsafe { std::slice::from_raw_parts(e.a().raw_ptr(), e.a().capacity()) }.to_vec();
+        // boundary crash point (before the first access of the operation). In a writable session the image is the
+        // shared mapping; in a copy-on-write / read-only session nothing of the mapping reaches the file: the image
+        // is the file, and it owes what the last writable session had handed out
+        let nondurable = e.ro || e.cow;
+        let ob = if nondurable { durable_ob.clone() } else { obligations(&e) };
+        if !nondurable {
+            durable_ob = ob.clone();
+        }
+        let mem = if nondurable { std::fs::read(&path).unwrap_or_default() } else { unsafe { std::slice::from_raw_parts(e.a().raw_ptr(), e.a().capacity()) }.to_vec() };
         let step0 = ST.with(|st| st.borrow().total_steps);
         points.push(Point { op_index: i, step: step0, bytes: mem, obligations: ob.clone(), boundary: true, op_desc: format!("{:?}", op), after: (0, 0, 0), mark: None });
         // the range released by this operation carries no obligation once the release has begun
@@ -162,6 +171,9 @@ fn run_generic<A: Ar>(spec: &CaseSpec, tag: u64, every: u64, mut source: impl Fn
         ST.with(|st| st.borrow_mut().snaps.clear());
         e.step(&op);
         let snaps = ST.with(|st| std::mem::take(&mut st.borrow_mut().snaps));
+        // no crash points inside close + reopen (the mapping changes hands) nor inside the calls of a session whose
+        // mapping is not the file
+        let snaps = if nondurable || matches!(op, Op::Reopen { .. } | Op::Truncate(_)) { Vec::new() } else { snaps };
         // clear(): the caller promises not to use anything handed out before - no obligations inside it
         let ob_in: Vec<Range> = if matches!(op, Op::Clear) { Vec::new() } else { ob.into_iter().filter(|r| Some(r.id) != releasing).collect() };
         for (step, bytes, la, om) in snaps {
@@ -170,8 +182,9 @@ fn run_generic<A: Ar>(spec: &CaseSpec, tag: u64, every: u64, mut source: impl Fn
         i += 1;
     }
     if !e.dead {
-        let ob = obligations(&e);
-        let mem = unsafe { std::slice::from_raw_parts(e.a().raw_ptr(), e.a().capacity()) }.to_vec();
+        let nondurable = e.ro || e.cow;
+        let ob = if nondurable { durable_ob.clone() } else { obligations(&e) };
+        let mem = if nondurable { std::fs::read(&path).unwrap_or_default() } else { unsafe { std::slice::from_raw_parts(e.a().raw_ptr(), e.a().capacity()) }.to_vec() };
         let step0 = ST.with(|st| st.borrow().total_steps);
         points.push(Point { op_index: i, step: step0, bytes: mem, obligations: ob, boundary: true, op_desc: "end".into(), after: (0, 0, 0), mark: None });
     }
